@@ -174,8 +174,8 @@ type cpServer struct {
 	stub  spb.GRIBIClient
 }
 
-func newCpServer(vrf string, fwd bool, f *cpFault) (*cpServer, error) {
-	opts := []server.ServerOpt{server.WithVRFs([]string{vrf})}
+func newCpServer(vrfs []string, fwd bool, f *cpFault) (*cpServer, error) {
+	opts := []server.ServerOpt{server.WithVRFs(vrfs)}
 	if !fwd {
 		opts = append(opts, server.WithNoRIBForwardReferences())
 	}
@@ -269,9 +269,12 @@ var cpMu sync.Mutex
 type cpConfig struct {
 	elecBase uint64
 	vrf      string
+	// dflt is the instance the suite is told to treat as the default one ("DEFAULT" is the
+	// server's own default instance; any other name is configured on the server as one more VRF)
+	dflt string
 }
 
-var cpConfigs = []cpConfig{{1, "NON-DEFAULT-VRF"}, {1 << 40, "VRF-X"}, {1000, "NON-DEFAULT-VRF"}, {^uint64(0) - 100000, "a-vrf"}}
+var cpConfigs = []cpConfig{{1, "NON-DEFAULT-VRF", "DEFAULT"}, {1 << 40, "VRF-X", "default"}, {1000, "NON-DEFAULT-VRF", "DEFAULT"}, {^uint64(0) - 100000, "a-vrf", "main"}}
 
 func cpPermCase(seed uint64, idx int) *CaseSpec {
 	name := fmt.Sprintf("compliance/perm/%d/%d", seed, idx)
@@ -285,12 +288,18 @@ func cpPermCase(seed uint64, idx int) *CaseSpec {
 		t.Add("begin %s", name)
 		compliance.SetElectionID(cfg.elecBase)
 		compliance.SetNonDefaultVRFName(cfg.vrf)
-		a, err := newCpServer(cfg.vrf, true, nil)
+		compliance.SetDefaultNetworkInstanceName(cfg.dflt)
+		defer compliance.SetDefaultNetworkInstanceName(server.DefaultNetworkInstanceName)
+		vrfs := []string{cfg.vrf}
+		if cfg.dflt != server.DefaultNetworkInstanceName {
+			vrfs = append(vrfs, cfg.dflt)
+		}
+		a, err := newCpServer(vrfs, true, nil)
 		if err != nil {
 			return t, err
 		}
 		defer a.stop()
-		b, err := newCpServer(cfg.vrf, false, nil)
+		b, err := newCpServer(vrfs, false, nil)
 		if err != nil {
 			return t, err
 		}
@@ -302,7 +311,7 @@ func cpPermCase(seed uint64, idx int) *CaseSpec {
 				perm[i] = n - 1 - i // the suite backwards
 			}
 		}
-		t.Add("cp.config %d %s %d", cfg.elecBase, S(cfg.vrf), n)
+		t.Add("cp.config %d %s %s %d", cfg.elecBase, S(cfg.vrf), S(cfg.dflt), n)
 		prev := "-"
 		for pos, i := range perm {
 			tt := compliance.TestSuite[i]
@@ -489,6 +498,7 @@ func cpFaultCase(fi int, limit time.Duration) *CaseSpec {
 		t.Add("begin %s", name)
 		compliance.SetElectionID(1)
 		compliance.SetNonDefaultVRFName("NON-DEFAULT-VRF")
+		compliance.SetDefaultNetworkInstanceName(server.DefaultNetworkInstanceName)
 		for _, tt := range compliance.TestSuite {
 			hit := false
 			for _, s := range f.targets {
@@ -499,7 +509,7 @@ func cpFaultCase(fi int, limit time.Duration) *CaseSpec {
 			if !hit || tt.FatalMsg != "" || tt.ErrorMsg != "" {
 				continue
 			}
-			srv, err := newCpServer("NON-DEFAULT-VRF", !tt.In.RequiresDisallowedForwardReferences, f)
+			srv, err := newCpServer([]string{"NON-DEFAULT-VRF"}, !tt.In.RequiresDisallowedForwardReferences, f)
 			if err != nil {
 				return t, err
 			}
